@@ -174,24 +174,24 @@ func (m *c05method) clone() *c05method {
 // ---------------------------------------------------------------- one (T, I) pair
 
 type c05pair struct {
-	idx       int
-	feature   string // the single hostile feature ("plain" = exact copy)
-	ifacePkg  string // "ifc" | "impl" | "alt"
-	ifaceName string
-	imethods  []*c05method
-	embeds    string // name of an embedded interface (same package) or ""
-	deep      bool   // the embedded interface itself embeds another one that holds the first method
-	tname     string
-	tkind     string // struct | int | iface
-	tmethods  []*c05method
-	recvPtr   []bool
-	viaEmbed  string // "", "value", "ptr", "iface": methods come from an embedded helper
+	idx         int
+	feature     string // the single hostile feature ("plain" = exact copy)
+	ifacePkg    string // "ifc" | "impl" | "alt"
+	ifaceName   string
+	imethods    []*c05method
+	embeds      string // name of an embedded interface (same package) or ""
+	deep        bool   // the embedded interface itself embeds another one that holds the first method
+	tname       string
+	tkind       string // struct | int | iface
+	tmethods    []*c05method
+	recvPtr     []bool
+	viaEmbed    string // "", "value", "ptr", "iface": methods come from an embedded helper
 	ptrContract bool
-	qualifier string // text before the dot in the annotation ("" = none)
-	annName   string // interface name written in the annotation
-	file      int    // which file of impl
-	extra     string // a second @implements line on the same type: "<kind>-<before|after>" or ""
-	xsealed   bool   // the interface (declared in package altname) embeds ifc.Sealed, whose unexported method belongs to ifc
+	qualifier   string // text before the dot in the annotation ("" = none)
+	annName     string // interface name written in the annotation
+	file        int    // which file of impl
+	extra       string // a second @implements line on the same type: "<kind>-<before|after>" or ""
+	xsealed     bool   // the interface (declared in package altname) embeds ifc.Sealed, whose unexported method belongs to ifc
 }
 
 var c05features = []string{
@@ -692,10 +692,10 @@ func usesPkg(p *c05pair, pkg string) bool {
 // ---------------------------------------------------------------- oracle
 
 type c05expect struct {
-	code    string // "" = no diagnostic
-	missing []string
-	free    bool
-	why     string
+	code     string // "" = no diagnostic
+	missing  []string
+	free     bool
+	why      string
 	lastElem bool // the qualifier matches only the last path element of an import whose declared name differs
 }
 
@@ -796,7 +796,7 @@ func c05oracle(dir string) (map[string]c05expect, error) {
 						if target == nil {
 							if lastElemOnly {
 								exp.code, exp.why = "IMPL01", "qualifier matches only the last path element of an import whose declared name differs: not bound"
-					exp.lastElem = true
+								exp.lastElem = true
 							} else {
 								exp.code, exp.why = "IMPL01", "qualifier not bound by any import of the file"
 							}
